@@ -26,6 +26,7 @@ const (
 	FaultCorrupt   = "corrupt"   // body[Arg] ^= Mask
 	FaultBody      = "body"      // body replaced by Body
 	FaultReadErr   = "readerr"   // body reader fails after Arg octets
+	FaultOtherQ    = "otherq"    // a well-formed response to ANOTHER question: the same type for the name Text
 )
 
 // Fault applies to queries matching Name (case-insensitive, "" = any name)
